@@ -46,6 +46,9 @@ type connEnd struct {
 	reset        bool
 	closed       bool
 	cond         *sync.Cond
+	wcond        *sync.Cond // writers of the PEER end blocked on this end's full send window
+	readWaiting  int        // goroutines parked in Read on this end
+	wblocked     int        // goroutines parked in Write on this end (window full)
 	stalledUntil time.Duration
 	delivered    int // bytes ever delivered to this end
 	written      int // bytes ever written by this end
@@ -68,8 +71,8 @@ func (s *Sim) newConn(label string, from, to simAddr) *simConn {
 	}
 	s.connCount[label]++
 	c := &simConn{id: s.connSeq, sim: s, label: label, name: fmt.Sprintf("%s#%d", label, s.connCount[label])}
-	c.a = &connEnd{c: c, side: 'a', local: from, remote: to, cond: sync.NewCond(&s.mu)}
-	c.b = &connEnd{c: c, side: 'b', local: to, remote: from, cond: sync.NewCond(&s.mu)}
+	c.a = &connEnd{c: c, side: 'a', local: from, remote: to, cond: sync.NewCond(&s.mu), wcond: sync.NewCond(&s.mu)}
+	c.b = &connEnd{c: c, side: 'b', local: to, remote: from, cond: sync.NewCond(&s.mu), wcond: sync.NewCond(&s.mu)}
 	c.a.peer, c.b.peer = c.b, c.a
 	s.conns = append(s.conns, c)
 	return c
@@ -100,7 +103,9 @@ func (e *connEnd) Read(p []byte) (int, error) {
 		if e.eofDelivered {
 			return 0, io.EOF
 		}
+		e.readWaiting++
 		e.cond.Wait()
+		e.readWaiting--
 	}
 }
 
@@ -122,6 +127,30 @@ func (e *connEnd) Write(p []byte) (int, error) {
 	}
 	e.written += len(p)
 	pe := e.peer
+	// back-pressure (a knob of the run): a server goroutine whose peer has a full window of
+	// undelivered bytes blocks in Write, as on a TCP socket whose reader is slow, until the
+	// scheduler delivers. Actors write from the scheduler itself and never block.
+	//
+	// tile38 guards a connection's writes with a plain mutex shared by the connection's reader
+	// goroutine (pub/sub replies) and its sender goroutine; a goroutine blocked on a plain mutex
+	// is not a quiescent state the bubble can wait out. A write therefore blocks only while the
+	// connection's reader is parked in Read with nothing to read, and nothing is delivered to
+	// that reader while a writer is blocked (see actions()).
+	if s.sndWindow > 0 && e.inst != nil && e.side == 'b' && !e.c.hidden {
+		for pe.inflightN >= s.sndWindow && e.readWaiting > 0 && len(e.rbuf) == 0 && !e.eofDelivered &&
+			!e.closed && !e.reset && !pe.closed && !pe.reset {
+			s.stats["net.writes_blocked_on_window"]++
+			e.wblocked++
+			pe.wcond.Wait()
+			e.wblocked--
+		}
+		if e.closed {
+			return 0, errConnClosed
+		}
+		if e.reset {
+			return 0, errConnReset
+		}
+	}
 	if pe.closed || pe.reset {
 		// peer is gone: bytes vanish (a real stack would eventually RST)
 		return len(p), nil
@@ -148,6 +177,8 @@ func (e *connEnd) Close() error {
 	e.inflight, e.inflightN = nil, 0
 	e.peer.peerClosed = true
 	e.cond.Broadcast()
+	e.wcond.Broadcast()
+	e.peer.wcond.Broadcast()
 	return nil
 }
 
@@ -165,6 +196,7 @@ func (c *simConn) kill() {
 		e.reset = true
 		e.inflight, e.inflightN = nil, 0
 		e.cond.Broadcast()
+		e.wcond.Broadcast()
 	}
 	s.mu.Unlock()
 	for _, e := range []*connEnd{c.a, c.b} {
@@ -192,6 +224,9 @@ func (c *simConn) deliverActions() []action {
 		}
 		if e.stalledUntil > now {
 			continue
+		}
+		if e.wblocked > 0 {
+			continue // its reader must stay parked while a writer of this end is blocked
 		}
 		if e.inflightN > 0 {
 			acts = append(acts, action{kind: akDeliver, key: fmt.Sprintf("%s>%c", c.name, e.side),
@@ -274,6 +309,7 @@ func (e *connEnd) deliver() {
 	}
 	e.inflightN -= n
 	e.delivered += n
+	e.wcond.Broadcast()
 	if e.onData == nil {
 		e.rbuf = append(e.rbuf, moved...)
 		e.cond.Broadcast()
@@ -450,6 +486,7 @@ func (e *connEnd) deliverAll() bool {
 		moved = append(moved, ch...)
 	}
 	e.inflight, e.inflightN = nil, 0
+	e.wcond.Broadcast()
 	eof := e.peerClosed && !e.eofDelivered
 	if eof {
 		e.eofDelivered = true
